@@ -1,4 +1,4 @@
-cd "$(dirname "$0")" 2>/dev/null
+cd "$(dirname "$0")/.."
 for s in 11 12; do
  for spec in "C01 wide 20000" "C05 wide 20000" "C07 long 6000" "C08 long 8000" "C04 bulk 40000" "C17 malformed 40000" "C08 episodes 30000" "C10 traces 20000"; do
   set -- $spec
